@@ -1025,6 +1025,7 @@ func c20r11(rc *core.RC) {
 //   - len(buf), or a value v under a condition that says len(buf) <= v (nothing remains), or
 //   - c + n where n is what another builder method reported for buf[k:] and c >= k, or
 //   - the result of a builder method that was handed the same buf.
+//
 // A success return that fits none of these leaves text that nobody examined: `$[0][1]x` would be a valid path.
 func c20r12(rc *core.RC) {
 	p := rc.P
@@ -1268,3 +1269,65 @@ func c20r12(rc *core.RC) {
 	}
 }
 
+// ---- C20.R13 selectors that remain select nothing from a value that is no container ----
+
+// The value a path ends at is taken by the container that holds it (the member or element is copied out with
+// skipValue). DecodePath is entered for a value only while selectors remain: for an object or an array they are applied
+// to its members; a number, string or literal has nothing they could select, so the answer is no text. The branches of
+// interfaceDecoder.DecodePath for those values return the value's own text instead: `$.a.b` over {"a":1} yields 1,
+// `$.z[*].a` yields every scalar element of z, and a string comes back without its quotes. (The recursive selector is
+// built on this: `$..a` finds a top-level scalar only because the scalar is returned when the selector that follows
+// the match is applied to it, which is why the branches cannot simply be emptied.)
+func c20r13(rc *core.RC) {
+	p := rc.P
+	fd := p.Func("decoder", "interfaceDecoder.DecodePath")
+	if fd == nil || fd.Body == nil {
+		rc.Unknown("decoder.interfaceDecoder.DecodePath", token.NoPos, "method not found")
+		return
+	}
+	info := p.Info(fd)
+	name := p.FuncName(fd)
+	rc.Touch(name)
+	n := 0
+	ast.Inspect(fd.Body, func(m ast.Node) bool {
+		cc, ok := m.(*ast.CaseClause)
+		if !ok || len(cc.List) == 0 {
+			return true
+		}
+		first, isC := core.ConstInt(info, cc.List[0])
+		if !isC || first == '{' || first == '[' {
+			return true
+		}
+		n++
+		// what the clause answers with: a non-nil list of texts
+		answers := false
+		ast.Inspect(cc, func(k ast.Node) bool {
+			r, ok := k.(*ast.ReturnStmt)
+			if !ok || len(r.Results) != 3 {
+				return true
+			}
+			if tv, has := info.Types[r.Results[2]]; !has || !tv.IsNil() {
+				return true // an error return
+			}
+			if tv, has := info.Types[r.Results[0]]; has && tv.IsNil() {
+				return true
+			}
+			answers = true
+			return true
+		})
+		// a clause that hands on to a scalar decoder's DecodePath answers with what that returns
+		ast.Inspect(cc, func(k ast.Node) bool {
+			if r, ok := k.(*ast.ReturnStmt); ok && len(r.Results) == 1 {
+				if c, ok := core.Unparen(r.Results[0]).(*ast.CallExpr); ok && strings.HasSuffix(core.CalleeName(info, c), ".DecodePath") {
+					answers = true
+				}
+			}
+			return true
+		})
+		rc.Check(!answers, fmt.Sprintf("%s/clause %q no-text-for-a-scalar", name, rune(first)), cc.Pos(), "with selectors still to apply, the clause for a value that begins with %q answers with the value's own text: a selector applied to a number, string or literal selects nothing (`$.a.b` over {\"a\":1} yields 1)", rune(first))
+		return true
+	})
+	if n < 4 {
+		rc.Unknown(name+"/scalar-clauses", fd.Pos(), "found %d clauses for values that are neither objects nor arrays (confirmed: 5)", n)
+	}
+}
